@@ -427,7 +427,10 @@ def confirm_violation(bins, x, seed):
     g1, _ = exec_plans(binary, [text]); g2, _ = exec_plans(binary, [text])
     same = g1[0]["key"] == x["key"] and g2[0]["key"] == x["key"] and g1[0]["evhash"] == g2[0]["evhash"] \
         and (x["evhash"] == "crash" or g1[0]["evhash"] == x["evhash"])
-    if same and not x.get("in_harness"):
+    # tsan variant: only src/memory.c and the payload accessors are instrumented, so a race report is about the
+    # library's synchronisation wherever the second access happens to sit (e.g. the payload read of a task)
+    tsan_report = x["variant"] == "tsan" and "/crash/SANITIZER/" in x["key"]
+    if same and (not x.get("in_harness") or tsan_report):
         return x["variant"], text, x["key"]
     if "asan" in bins and x["variant"] != "asan":
         a = bins["asan"]
